@@ -341,7 +341,7 @@ def rand_th(rng):
 def record_repo(task):
     import random
 
-    data = os.path.join(task["repo"], "mchap", "tests", "test_io", "data")
+    data = task["data"]  # a copy of the repository's test data under work/ (never read /repo in place: pysam may write indexes)
     fasta = os.path.join(data, "simple.fasta")
     rng = random.Random(task["seed"])
     out = []
